@@ -314,7 +314,13 @@ class CircuitCompositeOperation(ICircuitCompositeOperation):
         :return: Modified self.
         """
         flatten_circuit_graph: CircuitGraphBranch = CircuitGraphBranch()
-        for operation in tqdm(self.decomposed_operations(), desc="Flatten Circuit Graph"):
+        operations: List[ICircuitOperation] = self.decomposed_operations()
+        # Relations to a (flattened) composite-operation are redirected to its decomposed operations
+        for operation in operations:
+            operation.relation_link = CircuitCompositeOperation._redirect_link_to_decomposed(operation.relation_link)
+        RelationLink.get_start_time.cache_clear()
+        MultiRelationLink.get_start_time.cache_clear()
+        for operation in tqdm(operations, desc="Flatten Circuit Graph"):
             CircuitGraphBranch.add_to_graph(
                 graph=flatten_circuit_graph,
                 operation=operation,
@@ -422,6 +428,25 @@ class CircuitCompositeOperation(ICircuitCompositeOperation):
             _reference_node=link.reference_node,
             _relation_type=link.relation_type,
         )
+
+    @staticmethod
+    def _redirect_link_to_decomposed(link: IRelationLink) -> IRelationLink:
+        """:return: Link referring to the decomposed operations of any composite-operation the given link refers to."""
+        if isinstance(link, MultiRelationLink):
+            reference_nodes: List[ICircuitOperation] = link._reference_nodes
+        else:
+            reference_nodes = [link.reference_node] if link.reference_node is not None else []
+        if not any(isinstance(node, CircuitCompositeOperation) for node in reference_nodes):
+            return link
+        decomposed_nodes: List[ICircuitOperation] = []
+        for node in reference_nodes:
+            decomposed_nodes.extend(node._collect_decomposed_operations() if isinstance(node, CircuitCompositeOperation) else [node])
+        if len(decomposed_nodes) == 0:
+            return link
+        # Start of a composite-operation is the start of its first (head) operation
+        if link.relation_type == RelationType.JOINED_START and not isinstance(link, MultiRelationLink):
+            return RelationLink(_reference_node=decomposed_nodes[0], _relation_type=link.relation_type)
+        return MultiRelationLink(_reference_nodes=decomposed_nodes, _relation_type=link.relation_type)
 
     @staticmethod
     def _is_handed_link(link: IRelationLink, parent_link: IRelationLink) -> bool:
